@@ -150,18 +150,29 @@ def run(tier, seed):
     sessions = C.parse_payload(g.lines, "CASE ")
     if len(sessions) < 300:
         raise C.InfraError("only %d sessions" % len(sessions))
+    gb = C.tlc("GenUtil", "gen_UtilFetch.cfg", os.path.join(rd, "genbound"), workers=1, heap="2g", prefixes=("BOUND ",))
+    bound = C.parse_payload(gb.lines, "BOUND ")
+    if not bound or len(bound[0]) < 20:
+        raise C.InfraError("no boundary sessions")
+    # each boundary session on every carrier
+    bsess = sorted(bound[0], key=lambda x: json.dumps(x, sort_keys=True))
+    nrand = len(sessions)
+    sessions = sessions + [b for b in bsess for _ in CARRIERS]
     wd = os.path.join(rd, "w")
     os.makedirs(wd)
     open(os.path.join(wd, "init.hex"), "w").write(HEXFILE)
     exe = os.path.join(vdir, "naken_util")
     jobs, meta = [], {}
     for i, s in enumerate(sessions):
-        cpu, bpa, big = CARRIERS[i % len(CARRIERS)]
+        cpu, bpa, big = CARRIERS[i % len(CARRIERS)] if i < nrand else CARRIERS[(i - nrand) % len(CARRIERS)]
         # addresses in the model are unit addresses; keep write16/32 and print16/32 aligned for this carrier
         cm = []
         for c in s:
             c = dict(c)
-            unit = max(1, c["w"] // bpa) if bpa < c["w"] else 1
+            # naken_util insists on the CPU's alignment, not on the width of the access (msp430, 68000, avr8: 2 bytes,
+            # propeller: 4): a write32 at 0xfffe is legal on msp430 and crosses a 64 KiB page
+            ub = min(c["w"], {"propeller": 4}.get(cpu, 2))
+            unit = max(1, ub // bpa)
             c["a"] -= c["a"] % unit
             if c["k"] == "print":
                 c["b"] -= c["b"] % unit
